@@ -9,7 +9,7 @@ IDs; metamorphic: compressed vs uncompressed storage, with vs without template c
 import hashlib
 import json
 
-from vlib import runner, sut, std, corpusio
+from vlib import runner, sut, std, corpusio, fuzz
 from vlib.runner import Outcome, Report, Reject
 from gen import messages as gmsg, templates as gtemplates
 from refbufr import pathref, IllFormed, Unsupported
@@ -371,6 +371,17 @@ def gen_opts(tier):
     return opts
 
 
+# ---- coverage-guided stage: the same generator and oracle, decisions taken from fuzzer bytes (vlib.fuzz) ----
+_FUZZ_OPTS = gen_opts('quick')
+
+
+def _fuzz_gen(ch):
+    return gen_case(ch, _FUZZ_OPTS, 8)
+
+
+fuzz_case = fuzz.structured_target(_fuzz_gen, check_case)
+
+
 def run(tier, seed):
     rep = Report(PID, tier, seed, 'exploration')
     n_paths = 8 if tier == 'quick' else 12
@@ -394,6 +405,7 @@ def run(tier, seed):
     std.add_results(rep, res, 'corpus')
     rep.required_classes = ['through_replication', 'attribute_step', 'negative_step_slice', 'non_empty_result', 'bare_id',
                             'stored_both_ways', 'compressed', 'uncompressed', 'corpus']
+    fuzz.run_structured(rep, 'checks.c16', _fuzz_gen, tier)
     return rep.finish()
 
 
